@@ -100,6 +100,15 @@ CHECKS.update({
    design="4/C13"),
 })
 
+CHECKS.update({
+ "C10": dict(
+   level="model_checking",
+   text="Init.tla is the reference semantics of package initialisation and of go:linkname, given twice: as a functional definition (VarOrder, PkgSeq, TopoOrders, RefTrace) and as a step machine (start package, begin, emit, suspend, helper, resume, end package; while the initialising goroutine is suspended only the helper and the resumption are enabled); TLC checks them against each other and checks on every program that the variable order is the least linear extension of the dependencies, that main is last in every cross-package order and that single-file programs do not depend on the file order. InitScen.tla enumerates completely: every import DAG of <= 4 packages (with and without a suspending deepest initialiser), every placement of 3 variables in 2 files with every acyclic direct / through-function dependency shape, every file-name pair x init count, the linkname table (function, value method, pointer method x exported x direction x suspending) and the three rejected directive forms, plus VERIF_SEED-decoded programs over the full bounds. Programs are rendered as multi-package modules, built by the working tree and run under Node; the marker trace must be one the specification allows for some cross-package topological order and ONE file order (ascending or descending by name) that explains the whole run, and is validated by TLC (InitTrace.tla). Reference toolchain as guard.",
+   note="Trusted: TLC, Node, the Go toolchain as guard (also for pull-style linknames where it builds them; the rejected directive forms are decided by doc/pargma.md alone), println markers. Not covered: file orders other than bytewise ascending/descending, multi-value initialisers, goroutines outliving init, state of packages not yet initialised, linkname targets in main or the standard library. The quick tier runs every dag/bad/code program and a seeded sample of the other families.",
+   technique="TLA+ reference semantics of package initialisation and linkname resolution (Init.tla: functional definition and step machine checked against each other by TLC) + TLC-enumerated multi-package programs replayed on compiled code + TLC validation of recorded traces (InitTrace.tla)",
+   design="4/C10"),
+})
+
 NOT_YET = "check not built yet in this round (planned in DESIGN.md section 9)"
 ALL = ["C%02d" % i for i in range(1, 21)]
 
